@@ -12,7 +12,9 @@
    not a procedure of the table.
    NOT proved (validated by correspondence + oracle only): WHICH of the alternatives is taken at
    which syntactic position (the position classifier), that the local table of a procedure holds
-   exactly its parameters and variables, and freedom from panics ([C16_full_statement]). *)
+   exactly its parameters and variables, and freedom from panics.  The full functional statement
+   ([C16_full_statement]) is stated on the model and REFUTED by a witness of the known finding
+   C16-cursor-directly-behind-token; outside the known classes it is validated by oracle only. *)
 From Spl Require Import Model.Completion Proofs.CompletionProofs.
 
 Theorem C16_shape : forall d line col r,
@@ -47,6 +49,30 @@ Theorem C16_toplevel_only_starters : forall g,
   filter is_struct (new_global_declaration g) = [].
 Proof. exact toplevel_no_entries. Qed.
 Print Assumptions C16_toplevel_only_starters.
+
+(* ---- the full functional statement ---- *)
+(* In a document without diagnostics (a missing `main` is tolerated), at every cursor position of one
+   of the four classes of the property - decided from the tokens and the syntax tree by
+   [position_class]: PStmt = a statement start or the gap in front of a closing brace inside a
+   procedure body, PExpr = behind `:=` or behind a `(` of a body, PType = behind `:` in a procedure
+   declaration, PTop = between / before / behind the global declarations; each class includes the
+   position directly behind the token and positions behind comments - the answer is what the property
+   prescribes ([meets]): PStmt: variables = the local table of that procedure's entry and procedures =
+   all procedure entries; PExpr: those variables; PType: types = all type entries (declared + int);
+   PTop: exactly the declaration starters (main snippet iff main is absent). *)
+Definition C16_full_statement : Prop :=
+  forall t d line col c,
+    new_doc t = Done d -> valid_doc d = true ->
+    position_class d (get_insertion_index line col (d_text d)) = Some c ->
+    meets d c (propose d line col) = true.
+
+(* The faithful model REFUTES it: `proc main() { var x: int; x :=1; }` at 0:30, directly behind `:=`, is
+   answered with `null` (known finding C16-cursor-directly-behind-token; the other known findings of
+   C16 are further classes of counterexamples).  The check decides the statement for every document
+   and oracle position (judge command 51, flag) in agreement with the independent python oracle. *)
+Theorem C16_full_statement_refuted : ~ C16_full_statement.
+Proof. exact completion_full_statement_refuted. Qed.
+Print Assumptions C16_full_statement_refuted.
 
 (* ---- non-vacuity: `proc p(a: int) { var x: int; x := a; }` LF `proc main() { }` ---- *)
 Definition c16_text : text :=
